@@ -32,6 +32,58 @@ func run(c *mon.Ctx) {
 	c.Floor("contract.some_missing", 1000)
 	c.Floor("contract.none_present", 500)
 	c.Floor("contract.empty_request", 200)
+	c.Floor("concurrent.calls", 5000)
+	c.Stream("concurrent-filters", c.N(3, 150), func(i int, r *gen.Rand) {
+		c.Concurrent("psi.FilterPMTPacketsToPids on packets of their own", 8, 300, r, func(q *gen.Rand) string {
+			p := ref.GenPMT(q, 2+q.Intn(10))
+			const pmtPid = 0x1f00
+			seen := map[int]bool{}
+			for _, st := range p.Streams {
+				if seen[st.PID] || st.PID == pmtPid || st.PID == 0 {
+					return "" // this probe wants distinct stream PIDs
+				}
+				seen[st.PID] = true
+			}
+			keep := map[int]bool{}
+			var req []int
+			for _, st := range p.Streams {
+				if q.Bool() {
+					keep[st.PID] = true
+					req = append(req, st.PID)
+				}
+			}
+			if len(req) == 0 {
+				return ""
+			}
+			pay := append([]byte{0}, p.Section()...)
+			pk, _ := ref.Packetise(pmtPid, q.Intn(16), pay, ref.RandChunks(q, 1+len(pay)/60), q.Bool())
+			var in []*packet.Packet
+			for k := range pk {
+				x := packet.Packet(pk[k])
+				in = append(in, &x)
+			}
+			out, err := psi.FilterPMTPacketsToPids(in, req)
+			if err != nil || len(out) == 0 {
+				return fmt.Sprintf("filtering to present PIDs failed: %v (%d packets)", err, len(out))
+			}
+			var got []byte
+			for _, o := range out {
+				off := 4
+				if o[3]&0x20 != 0 {
+					off += 1 + int(o[4])
+				}
+				if o[3]&0x10 != 0 && off < 188 {
+					got = append(got, o[off:]...)
+				}
+			}
+			want := append([]byte{0}, p.SectionWith(func(pid int) bool { return keep[pid] })...)
+			if len(got) < len(want) || !bytes.Equal(got[:len(want)], want) {
+				return fmt.Sprintf("the filtered payload differs from pointer_field + the section of the selected streams at byte %d", ref.FirstDiff(got, want))
+			}
+			return ""
+		})
+		c.Class("concurrent-filters")
+	})
 	c.Stream("filter", c.N(20000, 15000000), func(i int, r *gen.Rand) {
 		p := ref.GenPMT(r, -1)
 		pmtPid := 32 + r.Intn(8000)
